@@ -742,6 +742,27 @@ func (p *Program) ruleMemberScan(c *Check) map[string]string {
 		})
 		c.Expect(n == 1, "E7.V2", "geojson.parseJSON#single-writer("+key+")", p.declPos(fn), tgt+" is written only by the scan", tgt+" is written outside the member scan as well")
 	}
+	// (3b) distinct members are kept in distinct slots: otherwise "the last duplicate wins" would
+	// operate across two different member names, and a parser could not tell which one it was given
+	byTarget := map[string][]string{}
+	for key, tgt := range targets {
+		byTarget[tgt] = append(byTarget[tgt], key)
+	}
+	var tgts []string
+	for t := range byTarget {
+		tgts = append(tgts, t)
+	}
+	sort.Strings(tgts)
+	for _, t := range tgts {
+		ks := byTarget[t]
+		sort.Strings(ks)
+		con := "geojson.parseJSON#slot(" + t + ")"
+		if len(ks) == 1 {
+			c.OK("E7.V2", con, p.declPos(fn), "holds the member "+ks[0]+" only")
+		} else {
+			c.Bad("E7.V2", con, p.declPos(fn), "the members "+strings.Join(ks, ", ")+" share one slot: a document carrying both is decoded from whichever comes last, and a parser that requires one of them accepts the other")
+		}
+	}
 	// (4) type must exist and be a string before dispatch
 	var existsGuard, stringGuard bool
 	for _, g := range guardsOf(info, fd.Body.List) {
